@@ -95,7 +95,8 @@ void randomx_vm::initialize() {
 
 namespace randomx {
 
-	alignas(16) volatile static rx_vec_i128 aesDummy;
+	//per-thread: VMs may be created concurrently (a shared static here is a write/write data race)
+	alignas(16) volatile static thread_local rx_vec_i128 aesDummy;
 
 	template<class Allocator, bool softAes>
 	VmBase<Allocator, softAes>::~VmBase() {
